@@ -50,6 +50,15 @@ def _unrelated(m):
     return out
 
 
+def _func_names(f):
+    """MATLAB file stems a free function owns: its name, or one name per instantiation."""
+    import itertools
+    if f.template is None or not all(p.insts for p in f.template.params):
+        return {f.name}
+    return {refinst.instantiated_name(f.name, list(combo))
+            for combo in itertools.product(*[p.insts for p in f.template.params])}
+
+
 def _delete(m, target):
     def fn(it):
         return None if it is target else it
@@ -180,8 +189,7 @@ def check(case):
                 continue
             if matnorm.rank_ids_in_file(content, 'mod') != \
                     matnorm.rank_ids_in_file(ta[path_], 'mod'):
-                if isinstance(D, M.Func) and path_.endswith('/' + D.name + '.m') or \
-                        path_ == D.name + '.m' if isinstance(D, M.Func) else False:
+                if isinstance(D, M.Func) and path_.split('/')[-1][:-2] in _func_names(D):
                     continue  # another overload of the deleted function lives in this file
                 out.append(Failure('C15.matlab-unrelated-changed', 'deleting %s %s changed %s'
                                    % (type(D).__name__, _name(D), path_)))
